@@ -46,16 +46,17 @@ P = {
        "branches not modelled; math/big and strconv grammar transcribed from go1.24.2.",
   ref="DESIGN.md section 5 C02"),
  "C09": dict(
-  text="19 Lean theorems about the executable byte-level model of eval's parser (nextOperator with the e- hack, two-stack "
-       "reduction, function capture, TrimSpace, evaluation with symbolic operators): precedence_table on the regenerated "
-       "operator tables, parse (render e) = tree e for every blank layout (atoms, all binary operators, signs before atoms and "
-       "groups, parentheses), a sign binds its operand only, parse never panics and the scan index strictly increases for EVERY "
-       "byte string, reuse = fresh. Three ties: stateful structural differential against a real Evaluator with symbolic "
-       "functions, tree-walk value oracle with the library's own operators over six real evaluators, whitespace/precedence "
-       "oracle.",
-  note="parse_render for function calls and exponent-literal atoms, and evaluate_no_panic for resolvers returning '$', are kept "
-       "as unproved *_Statement definitions (covered by the differential runs only); operator/function arithmetic is the "
-       "library's own (C03/C04); wrong-arity calls are outside 'well-formed'.",
+  text="33 Lean theorems about the executable byte-level model of eval's parser and evaluator (nextOperator with the e- hack, "
+       "two-stack reduction, function capture by parenthesis counting, NextArg, replaceVariables, TrimSpace, evaluation with "
+       "symbolic operators): precedence_table on the regenerated operator tables, parse_render and evaluate_render for the FULL "
+       "expression language in every blank layout (atoms incl. exponent literals and variables, nested function calls, all "
+       "binary operators, signs before atoms/calls/groups, parentheses), whitespace_irrelevant, a sign binds its operand only, "
+       "parse_no_panic and evaluate_no_panic / evaluate_total for EVERY byte string (bounded steps), reuse = fresh. Three ties: "
+       "stateful structural differential against a real Evaluator with symbolic functions, tree-walk value oracle with the "
+       "library's own operators over six real evaluators (leaf literals converted independently), whitespace/precedence oracle.",
+  note="operator and function VALUES (fixed/float arithmetic, division by zero as configured, function arity) are the library's "
+       "own and not modelled in Lean (C03/C04 cover the fixed-point arithmetic): tied by the val oracle only; evaluate_render "
+       "needs literal answers for variables inside call arguments; wrong-arity calls are outside 'well-formed'.",
   ref="DESIGN.md section 5 C09"),
  "C13": dict(
   text="21 Lean theorems about the executable model of tracelog (entry lists with explicit backing-array aliasing, the group/"
@@ -160,16 +161,18 @@ P = {
        "after Shutdown are outside the domain; nil/panicking recovery handler only in stress.",
   ref="DESIGN.md section 5 C15"),
  "C19": dict(
-  text="14 Lean theorems about the executable file-system model of tar/zip ExtractWithMask and EnsureNoSymlinks (directories, "
+  text="26 Lean theorems about the executable file-system model of tar/zip ExtractWithMask and EnsureNoSymlinks (directories, "
        "inodes with hard links, symlinks, textual prefix test, MkdirAll, open/truncate, Link, Symlink, masks, first error "
-       "stops): lexical_check_spec, extract_contained / extract_contained_inodes / extract_no_outside_link for every archive "
-       "and initial tree (links included, thanks to the guard), extract_wf, ensureNoSymlinks_spec, guard_makes_lexical, "
-       "payload_error_propagates, first_error_stops, entry_reproduced and extract_reproduces_partial (tar). Each line builds a "
-       "real archive, extracts into a fresh sandbox and compares the ENTIRE tree under and beside the destination.",
-  note="extract_reproduces is proved for tar under a semantic no-conflict condition only (full statement kept as "
-       "*_Statement; zip analogue and exactness covered by the differential run); kernel path resolution is trusted to match "
-       "the model; a PRE-EXISTING hard link inside the destination to an outside file is outside the statement (it speaks of "
-       "links created by earlier entries); umask set to 0 by the harness.",
+       "stops): extract_reproduces (tar) and extract_reproduces_zip - a well-formed archive into an empty destination runs "
+       "without error and leaves EXACTLY the archive's tree (masked modes, complete payloads, verbatim symlinks, shared inodes "
+       "for hard links, nothing else); extract_nothing_else for every archive; extract_error_iff; lexical_check_spec; "
+       "extract_contained / extract_contained_inodes / extract_no_outside_link for every archive and initial tree (links "
+       "included, thanks to the guard); extract_wf, guard_makes_lexical, payload_error_propagates, first_error_stops. Each "
+       "line builds a real archive, extracts into a fresh sandbox and compares the ENTIRE tree under and beside the destination.",
+  note="kernel path resolution is trusted to match the model; exactness theorems do not cover skipped tar type flags, a ./ "
+       "entry, a non-empty destination, or precise directory modes when a directory is listed after its children (covered by "
+       "the differential run); a PRE-EXISTING hard link inside the destination to an outside file is outside the statement; "
+       "umask set to 0 by the harness.",
   ref="DESIGN.md section 5 C19"),
  "C03": dict(
   text="47 Lean theorems about the executable model of f64.Int/f128.Int (raw values with Go's wrap-around): Add/Sub exact, "
